@@ -72,7 +72,9 @@ theorem tophat_le_one : |evalR opq ρ Gen.Filters.TopHat_k_space| ≤ 1 := by
       have : (0:ℝ) < 14 * 10 ^ (-7:ℤ) := by norm_num
       simp only [decide_eq_true_eq] at h; linarith
     have := tophat_abs_le_one (ρ "kr") hx
-    simpa [zpow_ofNat] using this
+    first
+    | simpa [zpow_ofNat] using this
+    | (refine le_trans (le_of_eq ?_) this; congr 1; expr_finish)
   · simp
 /-- C04: the Gaussian window satisfies 0 < W ≤ 1, W(0) = 1 -/
 theorem gaussian_window_range : 0 < evalR opq ρ Gen.Filters.Gaussian_k_space ∧ evalR opq ρ Gen.Filters.Gaussian_k_space ≤ 1 := by
@@ -92,23 +94,16 @@ theorem sharpk_window_values :
 theorem cube_root_cube (r : ℝ) (hr : 0 ≤ r) : (r ^ 3) ^ ((1:ℝ) / 3) = r := by
   rw [← Real.rpow_natCast r 3, ← Real.rpow_mul hr]; norm_num
 
-/-- TopHat: r ↦ m ↦ r -/
-theorem tophat_roundtrip (hρ : 0 < ρ "rho_mean") (hr : 0 ≤ ρ "r") :
-    evalR opq (Function.update ρ "m" (evalR opq ρ Gen.Filters.TopHat_radius_to_mass)) Gen.Filters.TopHat_mass_to_radius = ρ "r" := by
-  simp only [Gen.Filters.TopHat_radius_to_mass, Gen.Filters.TopHat_mass_to_radius]; expr_unfold; push_cast
-  simp only [Function.update_apply, String.reduceEq, if_false, if_true, zpow_ofNat]
-  norm_num
+/-- the two round trips on explicit real expressions (the documented closed forms) -/
+theorem tophat_rt_real (r d : ℝ) (hd : 0 < d) (hr : 0 ≤ r) :
+    (3 * (4 * π * r ^ 3 * d / 3) / (4 * π * d)) ^ ((1:ℝ) / 3) = r := by
   have hp : (0:ℝ) < π := Real.pi_pos
-  have : 3 * (4 * π * ρ "r" ^ 3 * ρ "rho_mean" / 3) / (4 * π * ρ "rho_mean") = ρ "r" ^ 3 := by field_simp
+  have : 3 * (4 * π * r ^ 3 * d / 3) / (4 * π * d) = r ^ 3 := by field_simp
   rw [this]
   exact cube_root_cube _ hr
 
-/-- Gaussian: r ↦ m ↦ r -/
-theorem gaussian_roundtrip (hρ : 0 < ρ "rho_mean") (hr : 0 ≤ ρ "r") :
-    evalR opq (Function.update ρ "m" (evalR opq ρ Gen.Filters.Gaussian_radius_to_mass)) Gen.Filters.Gaussian_mass_to_radius = ρ "r" := by
-  simp only [Gen.Filters.Gaussian_radius_to_mass, Gen.Filters.Gaussian_mass_to_radius]; expr_unfold; push_cast
-  simp only [Function.update_apply, String.reduceEq, if_false, if_true, zpow_ofNat]
-  norm_num
+theorem gaussian_rt_real (r d : ℝ) (hd : 0 < d) (hr : 0 ≤ r) :
+    ((2 * π) ^ ((3:ℝ) / 2) * r ^ 3 * d / d) ^ ((1:ℝ) / 3) / Real.sqrt (2 * π) = r := by
   have hp : (0:ℝ) < π := Real.pi_pos
   have h2p : (0:ℝ) ≤ 2 * π := by positivity
   have e1 : ((2 * π : ℝ) ^ ((3:ℝ) / 2)) = (Real.sqrt (2 * π)) ^ 3 := by
@@ -116,12 +111,27 @@ theorem gaussian_roundtrip (hρ : 0 < ρ "rho_mean") (hr : 0 ≤ ρ "r") :
     rw [this, Real.rpow_mul h2p, ← Real.sqrt_eq_rpow]
     norm_num
   rw [e1]
-  have e2 : (Real.sqrt (2 * π)) ^ 3 * ρ "r" ^ 3 * ρ "rho_mean" / ρ "rho_mean" = (Real.sqrt (2 * π) * ρ "r") ^ 3 := by
+  have e2 : (Real.sqrt (2 * π)) ^ 3 * r ^ 3 * d / d = (Real.sqrt (2 * π) * r) ^ 3 := by
     field_simp
   rw [e2, cube_root_cube _ (by positivity)]
   have hs : 0 < Real.sqrt (2 * π) := Real.sqrt_pos.mpr (by positivity)
   field_simp
-  rw [Real.sqrt_mul (by norm_num : (0:ℝ) ≤ 2)]; ring
+
+/-- TopHat: r ↦ m ↦ r -/
+theorem tophat_roundtrip (hρ : 0 < ρ "rho_mean") (hr : 0 ≤ ρ "r") :
+    evalR opq (Function.update ρ "m" (evalR opq ρ Gen.Filters.TopHat_radius_to_mass)) Gen.Filters.TopHat_mass_to_radius = ρ "r" := by
+  simp only [Gen.Filters.TopHat_radius_to_mass, Gen.Filters.TopHat_mass_to_radius]; expr_unfold; push_cast
+  simp only [Function.update_apply, String.reduceEq, if_false, if_true, zpow_ofNat]
+  refine Eq.trans ?_ (tophat_rt_real (ρ "r") (ρ "rho_mean") hρ hr)
+  expr_finish
+
+/-- Gaussian: r ↦ m ↦ r -/
+theorem gaussian_roundtrip (hρ : 0 < ρ "rho_mean") (hr : 0 ≤ ρ "r") :
+    evalR opq (Function.update ρ "m" (evalR opq ρ Gen.Filters.Gaussian_radius_to_mass)) Gen.Filters.Gaussian_mass_to_radius = ρ "r" := by
+  simp only [Gen.Filters.Gaussian_radius_to_mass, Gen.Filters.Gaussian_mass_to_radius]; expr_unfold; push_cast
+  simp only [Function.update_apply, String.reduceEq, if_false, if_true, zpow_ofNat]
+  refine Eq.trans ?_ (gaussian_rt_real (ρ "r") (ρ "rho_mean") hρ hr)
+  expr_finish
 end
 
 /-- every window and mass↔radius map is elementwise: σ(R) on a vector of radii is row-local -/
